@@ -92,7 +92,7 @@ EXPECT = [
     ("parameters shared across the view boundary", ["C19"]), ("removable singularity", ["C19", "C08", "C18"]),
     ("data_set() with an array", ["C10"]), ("lost its parameter sharing", ["C19"]),
     ("not one entire branch", ["C13", "C19"]), ("left a broken synapse type behind", ["C19"]),
-    ("record('i') was accepted", ["C19"]),
+    ("record('i') was accepted", ["C19"]), ("left recordings, clamps and trainables of the removed channel", ["C19"]),
 ]
 
 
